@@ -17,11 +17,6 @@ const (
 
 var phaseName = []string{"before-route", "after-route", "after-choose-host"}
 
-// maxRedo bounds re-match + re-choose verdicts per request. MOSN's proxy re-enters its phase loop at
-// most 10 times per stream (downstream.go OnReceive) and the property does not say what happens
-// beyond that, so the generator stays well inside.
-const maxRedo = 6
-
 type recvSpec struct {
 	Phase   int        `json:"phase"`
 	Scripts [][]string `json:"scripts"` // [request][invocation] verdict
@@ -42,7 +37,16 @@ type chainCase struct {
 
 var answerCodes = []int{200, 403, 404, 429, 500, 503}
 
-func genCase(rt *rapid.T) chainCase {
+// honoured: the API re-runs route matching only for a re-match from an after-route filter and host
+// selection only for a re-choose from an after-choose-host filter.
+func honoured(v byte, phase int) bool {
+	return v == 'M' && phase == phAfterRoute || v == 'R' && phase == phAfterChooseHost
+}
+
+// genCase draws a chain. misplaced=false: re-match only in after-route filters, re-choose only in
+// after-choose-host filters (part "chains"); misplaced=true: at least one script holds a re-match /
+// re-choose verdict in a phase that does not honour it (part "misplaced").
+func genCase(rt *rapid.T, misplaced bool) chainCase {
 	c := chainCase{Proto: rapid.SampledFrom([]string{"Http1", "bolt"}).Draw(rt, "proto")}
 	nReq := rapid.IntRange(1, 3).Draw(rt, "nreq")
 	for i := 0; i < nReq; i++ {
@@ -54,27 +58,30 @@ func genCase(rt *rapid.T) chainCase {
 	if c.Proto == "bolt" {
 		c.Pipelined = rapid.Bool().Draw(rt, "pipelined")
 	}
-	nRecv := rapid.IntRange(0, 5).Draw(rt, "nrecv")
+	minRecv := 0
+	if misplaced {
+		minRecv = 1
+	}
+	nRecv := rapid.IntRange(minRecv, 5).Draw(rt, "nrecv")
 	c.Send = rapid.IntRange(0, 3).Draw(rt, "nsend")
 	// how eager the filters of this case are to do something else than continue
 	eager := rapid.SampledFrom([]int{1, 2, 2, 3, 5}).Draw(rt, "eager")
-	redo := make([]int, nReq)
+	anyMisplaced := false
 	for i := 0; i < nRecv; i++ {
 		f := recvSpec{Phase: rapid.IntRange(0, 2).Draw(rt, "phase")}
 		for r := 0; r < nReq; r++ {
 			var sc []string
 			if rapid.IntRange(0, 9).Draw(rt, "act") < eager {
-				// 0..2 re-match (after-route filters) / re-choose (after-choose-host filters) verdicts first,
-				// the only phases in which the API honours them
-				if f.Phase != phBeforeRoute {
-					k := rapid.SampledFrom([]int{0, 0, 1, 1, 2}).Draw(rt, "redo")
-					for ; k > 0 && redo[r] < maxRedo; k-- {
-						redo[r]++
-						if f.Phase == phAfterRoute {
-							sc = append(sc, "M")
-						} else {
-							sc = append(sc, "R")
-						}
+				// 0..2 re-match / re-choose verdicts first
+				k := rapid.SampledFrom([]int{0, 0, 1, 1, 2}).Draw(rt, "redo")
+				for ; k > 0; k-- {
+					letter := map[int]string{phBeforeRoute: "", phAfterRoute: "M", phAfterChooseHost: "R"}[f.Phase]
+					if misplaced && rapid.IntRange(0, 2).Draw(rt, "misplace") == 0 {
+						letter = rapid.SampledFrom([]string{"M", "R"}).Draw(rt, "letter")
+					}
+					if letter != "" {
+						sc = append(sc, letter)
+						anyMisplaced = anyMisplaced || !honoured(letter[0], f.Phase)
 					}
 				}
 				final := rapid.SampledFrom([]string{"C", "C", "T", "H", "H", "B", "D", "D"}).Draw(rt, "final")
@@ -93,6 +100,16 @@ func genCase(rt *rapid.T) chainCase {
 		}
 		c.Recv = append(c.Recv, f)
 	}
+	if misplaced && !anyMisplaced {
+		i := rapid.IntRange(0, nRecv-1).Draw(rt, "misplacedFilter")
+		r := rapid.IntRange(0, nReq-1).Draw(rt, "misplacedReq")
+		letter := map[int]string{phBeforeRoute: rapid.SampledFrom([]string{"M", "R"}).Draw(rt, "letter0"), phAfterRoute: "R", phAfterChooseHost: "M"}[c.Recv[i].Phase]
+		sc := c.Recv[i].Scripts[r]
+		if len(sc) == 0 {
+			sc = []string{"C"}
+		}
+		c.Recv[i].Scripts[r] = append([]string{letter}, sc...)
+	}
 	return c
 }
 
@@ -101,18 +118,30 @@ func (c *chainCase) canonical() []byte {
 	return b
 }
 
+// How a re-match / re-choose verdict returned in a phase that does not honour it is read. The API pins
+// neither, so both are accepted; whatever the reading, the filters of the following phases still run in
+// configured order from the first one. modeLeak is NOT an accepted reading: it only names the
+// implementation's actual behaviour for the signature of the finding.
+const (
+	modeContinue = iota // the verdict counts as "continue": the pass goes on with the next filter
+	modeEndPass         // the verdict ends the pass of this phase, the next phase starts normally
+	modeLeak            // (classification only) the pass ends and the next pass starts at the filter that returned it
+)
+
 // expectation for one request, derived from the property text alone
 type expect struct {
-	Calls   []call // receive invocations in order, then send invocations
-	Outcome string // "up" forwarded, upstream's reply | "ans" answered by a filter | "term" terminated
-	AnsIdx  int
-	AnsV    string // verdict that answered, e.g. H403
-	Code    int
-	Body    string
-	Marker  string
-	Rematch int    // re-match verdicts executed
-	Kinds   []byte // executed non-continue verdict letters
-	NonTriv bool   // a non-continue verdict executed by a filter at position >= 2
+	Calls     []call // receive invocations and host selections in order, then send invocations
+	Outcome   string // "up" forwarded, upstream's reply | "ans" answered by a filter | "term" terminated
+	AnsIdx    int
+	AnsV      string // verdict that answered, e.g. H403
+	Code      int
+	Body      string
+	Marker    string
+	RouteTag  string // route the forwarded request must carry: parity of the re-match toggles seen by the last route matching
+	Redos     int    // honoured re-match + re-choose verdicts executed
+	Misplaced int    // re-match / re-choose verdicts executed in a phase that does not honour them
+	Kinds     []byte // executed non-continue verdict letters
+	NonTriv   bool   // a non-continue verdict executed by a filter at position >= 2
 }
 
 func verdictAt(sc []string, n int) string {
@@ -123,13 +152,21 @@ func verdictAt(sc []string, n int) string {
 }
 
 // simulate: filters run in configured order inside the pass of their phase, phases in order
-// before-route -> after-route -> after-choose-host; an answering or terminating verdict ends receive
-// processing; re-match (after-route) / re-choose (after-choose-host) re-enter the same phase and resume
-// at the requesting filter; every response delivered downstream passes every send filter once, in order.
-func simulate(c *chainCase, r int, tok string) expect {
+// before-route -> [route matching] -> after-route -> [host selection] -> after-choose-host; an answering or
+// terminating verdict ends receive processing; re-match (after-route) / re-choose (after-choose-host) re-run
+// the step and re-enter the same phase at the requesting filter; every response delivered downstream passes
+// every send filter once, in order.
+func simulate(c *chainCase, r int, tok string, mode int) expect {
 	e := expect{Outcome: "up", AnsIdx: -1}
 	n := make([]int, len(c.Recv))
 	cursor := 0
+	toggles := 0
+	tag := func() string {
+		if toggles%2 == 1 {
+			return "alt"
+		}
+		return "base"
+	}
 	note := func(i int, v string) {
 		if v[0] != 'C' {
 			e.Kinds = append(e.Kinds, v[0])
@@ -141,6 +178,10 @@ func simulate(c *chainCase, r int, tok string) expect {
 phases:
 	for p := phBeforeRoute; p <= phAfterChooseHost; {
 		again := false
+		next := 0
+		if p == phAfterRoute {
+			e.RouteTag = tag() // route matching (first time and after every honoured re-match)
+		}
 		if p == phAfterChooseHost {
 			// host selection runs on entering this phase and again on every re-choose
 			e.Calls = append(e.Calls, call{Kind: "lb"})
@@ -169,16 +210,27 @@ phases:
 				break phases
 			case 'M', 'R':
 				if v[0] == 'M' {
-					e.Rematch++
+					toggles++ // the scripted filter toggles the header the first route matches on
 				}
-				cursor, again = i, true
-				break pass
+				if honoured(v[0], p) {
+					e.Redos++
+					cursor, again = i, true
+					break pass
+				}
+				e.Misplaced++
+				switch mode {
+				case modeEndPass:
+					break pass
+				case modeLeak:
+					next = i
+					break pass
+				}
 			default:
 				panic(fmt.Sprintf("bad verdict %q", v))
 			}
 		}
 		if !again {
-			cursor = 0
+			cursor = next
 			p++
 		}
 	}
